@@ -466,6 +466,11 @@ def run(ctx):
     run_r6(ctx, r6)
     r7 = ctx.rule("C02-R7", "observers read the window at the current cursor, also after a refill inside the same call", floor=6)
     run_r7(ctx, r7)
+    # R8: a request falls short only when the source ended or failed: the read discipline of C09-R1 (single read site,
+    # Interrupted retried in place, no early give-up), run here too
+    from .c09 import run_r1 as c09_r1
+    r8 = ctx.rule("C02-R8", "requests fall short only at the end of the source or on an error: single read site, Interrupted is retried (shared with C09-R1)", floor=8)
+    c09_r1(ctx, r8)
     ctx.assume("Vec::resize / truncate / copy_within and slice indexing of std behave as documented")
     ctx.assume("wrapping arithmetic is treated as ring arithmetic (laws hold modulo 2^64 as the API documents)")
     return "other", "invariant-preservation obligations of every field-writing reader method, decided by affine path execution over MIR", {}
